@@ -4,7 +4,7 @@ From RichModel Require Import Prelude Cells Segments SpecCells.
 From RichGen Require Import CellWidthTable.
 From RichProofs Require Import CellsP SegmentsP SegmentsP2.
 (* T2 tie: the cell functions regenerated from /repo are proved equal to the hand model (bridge lemmas) *)
-From RichProofs.bridge Require BridgeCells.
+From RichProofs.bridge Require BridgeCells BridgeSegment.
 
 (* (1) the table lookup = linear scan, for EVERY sorted table and EVERY integer code point *)
 Theorem C13_bsearch_is_linear : forall T cp,
